@@ -230,6 +230,9 @@ def split_runs(events):
                 runs[cur]['t1'] = ev['t']
             elif what == 'settled' and cur == label:
                 cur, phase = None, None
+            elif what.startswith('tk') and cur == label:
+                # entry / exit of a recorded FileTracker call (record_tracker jobs, _install_tracker_recorder)
+                runs[cur].setdefault('marks', []).append((what, ev['t'], ev['pid']))
             continue
         if cur is not None:
             # after `end` the child itself only takes snapshots; what counts as late is what
@@ -457,7 +460,7 @@ def run_children(batches, workdir, timeout=900):
             ops, notes = to_ops(r['main'], roots)
             late, _ = to_ops(r['late'], roots)
             recs.append({'job': job, 'res': res, 'ops': ops, 'late': late, 'notes': notes,
-                         't0': r['t0'], 't1': r.get('t1')})
+                         't0': r['t0'], 't1': r.get('t1'), 'marks': r.get('marks', []), 'main_pid': r['pid']})
         out.append(recs)
     return out
 
@@ -588,6 +591,10 @@ def _pre(job, returned=None):
         pathlib.Path(p).write_text(text)
     for d in pre.get('mkdirs') or []:
         pathlib.Path(d).mkdir(parents=True, exist_ok=True)
+    for link, target in (pre.get('symlinks') or {}).items():
+        if os.path.lexists(link):
+            os.unlink(link)
+        os.symlink(target, link)
     sc = pre.get('stale_chunks')
     if sc:
         # the per-chunk files an earlier run (label sc['from'], executed by this child) would have left
@@ -630,6 +637,75 @@ def _install_fault(fault):
     return lambda: setattr(election, '_run_type_assignment_on_h5ad_worker', orig)
 
 
+def _install_tracker_recorder(job):
+    """Harness-side wrapper (no source hook) around the methods of the real FileTracker: every call of the run's
+    main process is recorded (arguments, result / exception, the tracker's tmp_dir and the location add_file chose)
+    and bracketed by two marker system calls `tk<n>a` / `tk<n>b`, so that the parent can tell, in the strace log,
+    what the tracker itself did (between the brackets, main process) from what its ENVIRONMENT did while it lived.
+    A snapshot of the roots is taken when the constructor is entered (the f0 of Model/Tracker.v), when __del__ is
+    entered and when it returns.  Only for dedicated jobs: the snapshots read every file (their trace is not given
+    to the acceptor)."""
+    from cell_type_mapper.file_tracker import file_tracker as ft
+    cls = ft.FileTracker
+    names = ('__init__', 'add_file', 'real_location', 'file_exists', '__del__')
+    orig = {n: cls.__dict__[n] for n in names}
+    calls = []
+    pid = os.getpid()
+
+    def wrap(name):
+        f = orig[name]
+
+        def g(self, *a, **kw):
+            if os.getpid() != pid:
+                return f(self, *a, **kw)
+            n = len(calls)
+            call = {'n': n, 'kind': name, 'obj': id(self), 'ok': None}
+            calls.append(call)
+            if name == '__init__':
+                td = kw.get('tmp_dir', a[0] if a else None)
+                call['tmp_dir_arg'] = None if td is None else str(pathlib.Path(td).resolve().absolute())
+            elif name != '__del__':
+                fp = kw.get('file_path', a[0] if a else None)
+                call['path'] = str(pathlib.Path(fp).resolve().absolute())
+                if name == 'add_file':
+                    call['input_only'] = bool(kw.get('input_only', a[1] if len(a) > 1 else True))
+            _mark(f'tk{n}a', job['label'])
+            try:
+                if name == '__init__':
+                    call['snap0'] = snapshot(job['roots'])
+                if name == '__del__':
+                    call['snap_before'] = snapshot(job['roots'])
+                    call['to_write_out'] = list(getattr(self, '_to_write_out', []))
+                    call['locations'] = dict(getattr(self, '_path_to_location', {}))
+                r = f(self, *a, **kw)
+                call['ok'] = True
+                if name == '__init__':
+                    call['tmp_dir'] = None if self.tmp_dir is None else str(self.tmp_dir)
+                elif name == 'add_file':
+                    call['location'] = self._path_to_location.get(call['path'])
+                elif name == 'real_location':
+                    call['result'] = str(r)
+                elif name == 'file_exists':
+                    call['result'] = bool(r)
+                elif name == '__del__':
+                    call['snap_after'] = snapshot(job['roots'])
+                return r
+            except Exception as e:      # noqa
+                call['ok'] = False
+                call['error'] = f'{type(e).__name__}: {e}'[:300]
+                raise
+            finally:
+                _mark(f'tk{n}b', job['label'])
+        return g
+    for n in names:
+        setattr(cls, n, wrap(n))
+
+    def undo():
+        for n in names:
+            setattr(cls, n, orig[n])
+    return {'calls': calls, 'undo': undo}
+
+
 def _reap(limit=30.0):
     """Wait until every descendant process has exited (bounded: a helper process that lives as
     long as the interpreter must not hang the check).  -> True iff none is left."""
@@ -657,6 +733,18 @@ def _run_stage(job):
         cfg = a['config']
         run_mapping(cfg, output_path=cfg['extended_result_path'], log_path=cfg['log_path'],
                     hdf5_output_path=cfg['hdf5_result_path'])
+        return None
+    if st == 'stats' and a.get('copy_data_over'):
+        # the non-default option of the same stage (the reference is first copied into the scratch directory):
+        # precompute_summary_stats_from_h5ad is precompute_summary_stats_from_h5ad_and_tree with the tree read
+        # from the file and copy_data_over=False
+        from cell_type_mapper.diff_exp.precompute_from_anndata import precompute_summary_stats_from_h5ad_and_tree
+        from cell_type_mapper.taxonomy.taxonomy_tree import TaxonomyTree
+        tree = TaxonomyTree.from_h5ad(h5ad_path=pathlib.Path(a['h5ad']), column_hierarchy=list(a['levels']))
+        precompute_summary_stats_from_h5ad_and_tree(
+            data_path=pathlib.Path(a['h5ad']), taxonomy_tree=tree, output_path=pathlib.Path(a['out']),
+            rows_at_a_time=a['rows_at_a_time'], normalization='raw', tmp_dir=a['tmp_dir'],
+            n_processors=a['n_processors'], copy_data_over=True)
         return None
     if st == 'stats':
         from cell_type_mapper.diff_exp.precompute_from_anndata import precompute_summary_stats_from_h5ad
@@ -740,6 +828,7 @@ def child_main(jobfile):
             os.chdir(job['cwd'])
         rec['before'] = snapshot(job['roots'])
         undo = _install_fault(job['fault']) if job.get('fault') else None
+        tkrec = _install_tracker_recorder(job) if job.get('record_tracker') else None
         buf = io.StringIO()
         ret = None
         if job.get('wait_for'):
@@ -762,6 +851,9 @@ def child_main(jobfile):
                 gc.collect()
         finally:
             _mark('end', job['label'])
+        if tkrec is not None:
+            tkrec['undo']()
+            rec['tracker_life'] = tkrec['calls']
         rec['at_return'] = snapshot(job['roots'])
         rec['all_descendants_exited'] = _reap()
         _mark('settled', job['label'])
